@@ -277,7 +277,9 @@ public:
 	{
 		_thread = 0;
 		_threadFinished = false;
-		*this = start(f, this);
+		Thread t(start(f, this)); // start() hands the thread handle over in its return value
+		_thread = t._thread;      // take it back without touching _threadFinished, which the new thread may already have set
+		t._thread = 0;
 	}
 	template<class Func>
 	static Thread start(const Func& f, Thread* t)
